@@ -14,7 +14,9 @@ import (
 // target x reach x payload x host answer x fork x gas (DESIGN.md §4 C03(c), C14).
 
 var (
-	U = world.ContractAddr(20) // second forwarder (reach from depth 2)
+	U  = world.ContractAddr(20) // second forwarder (reach from depth 2)
+	T2 = world.ContractAddr(21) // alternative first forwarder (histories with distinct callers)
+	U2 = world.ContractAddr(22) // alternative second forwarder
 )
 
 // Reach describes how the payload gets to the precompile.
@@ -72,24 +74,42 @@ func Forwarder(kind string, target common.Address) []byte {
 
 func PrecompileAddr(b byte) common.Address { return common.BytesToAddress([]byte{b}) }
 
-// PrecompileCase builds the world case.
-func PrecompileCase(f world.Fork, target byte, r Reach, payload []byte, gas uint64) *world.Case {
+// PrecompileCase builds the world case. The world always contains both forwarder pairs (T, U) and (T2, U2) for
+// this target and kind; alt selects the second pair as the entry, so that two cases on one world have distinct
+// callers. Returns the case and the address of the contract whose call reaches the precompile.
+func PrecompileCase(f world.Fork, target byte, r Reach, payload []byte, gas uint64, alt bool) (*world.Case, common.Address) {
 	pa := PrecompileAddr(target)
-	if r.Host {
-		cs := StdCase(f, nil, r.Kind, gas)
-		cs.To = pa
-		cs.Input = payload
-		return cs
+	cs := StdCase(f, nil, "call", gas)
+	d1 := Forwarder(r.Kind, pa)
+	cs.Accounts[1].Code = d1
+	if r.Depth == 2 {
+		cs.Accounts[1].Code = Forwarder("call", U)
 	}
-	var cs *world.Case
-	if r.Depth == 1 {
-		cs = StdCase(f, Forwarder(r.Kind, pa), "call", gas)
-	} else {
-		cs = StdCase(f, Forwarder("call", U), "call", gas)
-		cs.Accounts = append(cs.Accounts, world.Account{Addr: U, Nonce: 1, Code: Forwarder(r.Kind, pa)})
+	cs.Accounts = append(cs.Accounts,
+		world.Account{Addr: U, Nonce: 1, Code: d1},
+		world.Account{Addr: T2, Nonce: 1, Code: d1},
+		world.Account{Addr: U2, Nonce: 1, Code: d1})
+	if r.Depth == 2 {
+		cs.Accounts[len(cs.Accounts)-2].Code = Forwarder("call", U2)
 	}
 	cs.Input = payload
-	return cs
+	if r.Host {
+		cs.Entry = r.Kind
+		cs.To = pa
+		if alt {
+			cs.From = EOA
+		}
+		return cs, cs.From
+	}
+	first, second := T, U
+	if alt {
+		first, second = T2, U2
+		cs.To = T2
+	}
+	if r.Depth == 2 {
+		return cs, second
+	}
+	return cs, first
 }
 
 // PayloadLengths of DESIGN.md §4 C03(c).
